@@ -446,6 +446,8 @@ func runC03(c *Check) {
 
 	// ---- R5 memo reset per source
 	c.perInputTables("C03-R5", tree["Merge"])
+	c.dedupSetOutlivesList()
+	c.mainBinaryPinnedOnce()
 
 	// ---- R8 the merged sample list only grows.  Locations, functions and mappings enter the
 	// result when a sample that uses them is mapped; a sample removed from the list afterwards
